@@ -36,7 +36,7 @@ def run(ctx, replay):
         r = ctx.vh(["termcamp", "-cli", ctx.cli(), "-out", out, "-seed", ctx.seed, "-corpus", conf.CORPUS,
                     "-nrand", ctx.pick(6, 40), "-nexpr", ctx.pick(2, 10), "-nfeat", ctx.pick(2, 10),
                     "-files", ctx.pick(10, 60), "-stride", ctx.pick(1, 1), "-edits", ctx.pick(2000, 50000),
-                    "-klen", ctx.pick(2, 3), "-deadline", "5s"], timeout=3400)
+                    "-klen", ctx.pick(2, 3), "-special", ctx.pick(40, 300), "-deadline", "5s"], timeout=3400)
     log(r.stdout.strip().splitlines()[-1])
     t = json.load(open(os.path.join(out, "term.json")))
     for a in t["anomalies"]:
@@ -54,7 +54,7 @@ def run(ctx, replay):
     ctx.cov["lex_drift"] = t["lex_drift"]
     ctx.cov["samples"] += t["samples"]
     ctx.cov["rule"] = ("inputs = byte strings: every prefix of rendered grammar files (a few KB each, all five variants' files), random "
-                       "1-3 place edits of them, and the concretised token-kind scenarios of LexParse.tla; each input is run through "
+                       "1-3 place edits of them, systematic injection of 18 unusual characters (non-ASCII digits/letters/spaces, BOM, invalid UTF-8, NUL, CR) at token starts, and the concretised token-kind scenarios of LexParse.tla; each input is run through "
                        "`generate go`, `generate typescript` and `debug`; non-trivial = distinct inputs")
     if not replay and t["inputs"] < ctx.pick(8000, 100000):
         raise Inconclusive("too few inputs: %d" % t["inputs"])
